@@ -37,35 +37,132 @@ def check(ctx) -> Result:
     Poly.rules = {}
     fd = Folder(angle_names=())
     nu, pi_, p1 = Poly.gen("nu"), Poly.gen("p_i"), Poly.gen("p1")
-    table = None
-    for st in sp.node.body:
-        if isinstance(st, ast.Assign) and len(st.targets) == 1 and isinstance(st.targets[0], ast.Name):
-            name, v = st.targets[0].id, st.value
-            s = src(v).replace(" ", "")
-            if s == "self.brightness":
-                fd.env[name] = nu
-            elif s in ("self.indistinguishability**0.5", "np.sqrt(self.indistinguishability)", "self.indistinguishability**(1/2)", "sqrt(self.indistinguishability)"):
-                fd.env[name] = pi_
-            elif s == "purity_to_prob(self.purity)":
-                fd.env[name] = p1
-            elif s in ("self._counter", "self._counter+1"):
-                fd.env[name] = name  # label symbol
-            elif isinstance(v, ast.List) and name == "to_add":
-                table = v
-            else:
-                try:
-                    fd.env[name] = fd.fold(v)
-                except NotFoldable as e:
-                    raise AnalysisError(f"_single_photon_distribution: `{src(st)[:60]}` is not polynomial: {e}") from e
-    if table is None:
-        raise AnalysisError("_single_photon_distribution: outcome table `to_add` not found")
+    # The outcome table may be built in pieces, some of them under a condition on one of the parameters
+    # (`if p_d > 0: to_add += [...]`).  Every path through the function gives a table; on a path that assumed a
+    # parameter expression to be zero / non-positive the identities are checked under that substitution.
+    unfold = []
+
+    def bind(name, v, env):
+        s_ = src(v).replace(" ", "")
+        if s_ == "self.brightness":
+            env[name] = nu
+        elif s_ in ("self.indistinguishability**0.5", "np.sqrt(self.indistinguishability)", "self.indistinguishability**(1/2)", "sqrt(self.indistinguishability)"):
+            env[name] = pi_
+        elif s_ == "purity_to_prob(self.purity)":
+            env[name] = p1
+        elif s_ in ("self._counter", "self._counter+1"):
+            env[name] = name  # label symbol
+        else:
+            f2 = Folder(angle_names=())
+            f2.env = env
+            try:
+                env[name] = f2.fold(v)
+            except NotFoldable as e:
+                unfold.append(f"`{name} = {src(v)[:50]}`: {e}")
+
+    def table_elts(v):
+        return v.elts if isinstance(v, ast.List) and all(isinstance(e_, ast.Tuple) and len(e_.elts) == 2 and isinstance(e_.elts[0], ast.List) for e_ in v.elts) else None
+
+    def zero_subst(test, env, truth):
+        """substitution implied by the outcome of a test `P > 0` / `P == 0` / `P` on a polynomial that is linear in one generator"""
+        t = test
+        neg = False
+        if isinstance(t, ast.UnaryOp) and isinstance(t.op, ast.Not):
+            t, neg = t.operand, True
+        is_zero = None
+        expr = None
+        if isinstance(t, ast.Compare) and len(t.ops) == 1 and isinstance(t.comparators[0], ast.Constant) and t.comparators[0].value == 0:
+            expr = t.left
+            if isinstance(t.ops[0], (ast.Gt, ast.NotEq)):
+                is_zero = not truth
+            elif isinstance(t.ops[0], (ast.Eq, ast.LtE)):
+                is_zero = truth
+        elif isinstance(t, ast.Name):
+            expr, is_zero = t, not truth
+        if expr is None or is_zero is None:
+            return None
+        if neg:
+            is_zero = not is_zero
+        if not is_zero:
+            return {}
+        f2 = Folder(angle_names=())
+        f2.env = dict(env)
+        try:
+            poly = f2.fold(expr)
+        except NotFoldable:
+            return None
+        if not isinstance(poly, Poly):
+            return None
+        gens = list(poly.gens())
+        if len(gens) != 1:
+            return None
+        g = gens[0]
+        v0, v1 = poly.subs({g: 0}), poly.subs({g: 1})
+        if v0.is_zero():
+            return {g: 0}
+        if v1.is_zero():
+            return {g: 1}
+        return None
+
+    def walk_paths(stmts, env, entries, subst):
+        paths = [(env, entries, subst)]
+        for st in stmts:
+            nxt = []
+            for env_, ent_, sub_ in paths:
+                if isinstance(st, (ast.Assign, ast.AnnAssign)) and isinstance(st.targets[0] if isinstance(st, ast.Assign) else st.target, ast.Name) and (st.value is not None):
+                    name = (st.targets[0] if isinstance(st, ast.Assign) else st.target).id
+                    te = table_elts(st.value)
+                    if te is not None:
+                        env2 = dict(env_)
+                        env2["__table__"] = name
+                        nxt.append((env2, list(te), sub_))
+                    else:
+                        env2 = dict(env_)
+                        bind(name, st.value, env2)
+                        nxt.append((env2, ent_, sub_))
+                elif isinstance(st, ast.AugAssign) and isinstance(st.target, ast.Name) and st.target.id == env_.get("__table__") and isinstance(st.op, ast.Add) and table_elts(st.value) is not None:
+                    nxt.append((env_, ent_ + list(table_elts(st.value)), sub_))
+                elif isinstance(st, ast.Expr) and isinstance(st.value, ast.Call) and isinstance(st.value.func, ast.Attribute) and st.value.func.attr in ("extend", "append") and src(st.value.func.value) == env_.get("__table__") and st.value.args:
+                    arg = st.value.args[0]
+                    te = table_elts(arg) if st.value.func.attr == "extend" else (table_elts(ast.List(elts=[arg], ctx=ast.Load())))
+                    nxt.append((env_, ent_ + list(te), sub_) if te is not None else (env_, ent_, sub_))
+                elif isinstance(st, ast.If):
+                    for truth, body in ((True, st.body), (False, st.orelse)):
+                        zs = zero_subst(st.test, env_, truth)
+                        sub2 = dict(sub_)
+                        if zs:
+                            sub2.update(zs)
+                        nxt += walk_paths(body, dict(env_), list(ent_), sub2)
+                else:
+                    nxt.append((env_, ent_, sub_))
+            paths = nxt
+        return paths
+
+    env0 = {}
+    all_paths = walk_paths(sp.node.body, env0, [], {})
+    all_paths = [p_ for p_ in all_paths if p_[1]]
+    if unfold:
+        raise AnalysisError("_single_photon_distribution: " + "; ".join(unfold[:2]) + " is not polynomial")
+    if not all_paths:
+        raise AnalysisError("_single_photon_distribution: outcome table (list of (labels, coefficient)) not found")
+    # the reference table: the path that collected most entries
+    all_paths.sort(key=lambda p_: -len(p_[1]))
+    fd.env = all_paths[0][0]
     entries = []
-    for el in table.elts:
-        if not (isinstance(el, ast.Tuple) and len(el.elts) == 2 and isinstance(el.elts[0], ast.List)):
-            raise AnalysisError("outcome table entry is not (labels, coefficient)")
+    for el in all_paths[0][1]:
         labels = [src(x) for x in el.elts[0].elts]
         coef = fd.fold(el.elts[1])
         entries.append((labels, coef, el))
+    for env_, ent_, sub_ in all_paths[1:]:
+        f3 = Folder(angle_names=())
+        f3.env = env_
+        tot = Poly()
+        for el in ent_:
+            tot = tot + f3.fold(el.elts[1])
+        tot = tot.subs(sub_) if sub_ else tot
+        cond = ", ".join(f"{k} = {v}" for k, v in sub_.items()) or "an unrecognised condition"
+        res.add(tot == Poly.const(1), "Kp-table-normalised", f"sum of outcomes on the path with {cond}", sp.site(ent_[0]), sp.qualname, f"the {len(ent_)} outcomes collected on this path sum to 1 under {cond}",
+                f"on the path taken when {cond} only {len(ent_)} outcomes are collected and they sum to {tot}, not 1: the missing outcomes (e.g. the noise photon of an impure source) have non-zero probability there", construct=f"path {cond}")
     res.floor("outcome table entries", len(entries), 6)
     total = Poly()
     for _l, c, _e in entries:
@@ -133,6 +230,8 @@ def check(ctx) -> Result:
     n = 0
     for m in ("_build_statistics", "_build_statistics_basic", "_remap_distribution", "_full_distribution", "_single_mode_distribution"):
         n += rg_mass.check_function(ctx, res, S.methods[m])
+    n += rg_mass.check_function(ctx, res, ctx.func(PD, "pdist_calc"))
+    rg_mass.g2_remainder_guard(ctx, res, ctx.func(PD, "pdist_calc"))
     n += rg_mass.check_function(ctx, res, ctx.func(PD, "annotated_state_pdist_calc"), exceptions={
         "unique_results[in_state[": ("identity slice (see C04)", __import__("lwsa.props.c04", fromlist=["x"]).identity_slice_exception)})
     res.floor("G stores in source model", n, 12)
@@ -149,6 +248,34 @@ def check(ctx) -> Result:
     lit = [c for c in walk_no_nested(apd.node) if isinstance(c, ast.Compare) and ((isinstance(c.left, ast.Name) and c.left.id in label_vars and any(isinstance(x, ast.Constant) for x in c.comparators)) or (isinstance(c.left, ast.Constant) and any(isinstance(x, ast.Name) and x.id in label_vars for x in c.comparators)))]
     res.add(not lit, "Kp-labels-opaque", "annotated_state_pdist_calc", apd.site(lit[0]) if lit else apd.site(), apd.qualname, "photon labels are only used as dictionary keys / compared with each other",
             f"`{src(lit[0]) if lit else ''}` gives a particular label value a meaning, but labels are renumbered by order of first appearance before they arrive here: photons sharing a non-zero label would no longer be grouped (their interference is lost)", construct=src(lit[0]) if lit else "")
+    # brightness acts on every photon independently: the emitted / lost alternative is iterated once per photon of a mode
+    bb = S.methods["_build_statistics_basic"]
+    mode_loops = [l for l in walk_no_nested(bb.node) if isinstance(l, ast.For) and isinstance(l.iter, ast.Call) and src(l.iter.func) == "enumerate" and isinstance(l.target, ast.Tuple) and len(l.target.elts) == 2]
+    verdict = None
+    for l in mode_loops:
+        cnt = src(l.target.elts[1])
+        reads = [x for x in ast.walk(l) if isinstance(x, ast.Attribute) and x.attr == "brightness"]
+        if not reads:
+            continue
+        par_ = {c_: n_ for n_ in ast.walk(l) for c_ in ast.iter_child_nodes(n_)}
+        def per_photon(x):
+            y = x
+            while y is not None and y is not l:
+                y = par_.get(y)
+                if isinstance(y, ast.For) and isinstance(y.iter, ast.Call) and src(y.iter.func) == "range" and y.iter.args and cnt in src(y.iter.args[-1]):
+                    return True
+                if isinstance(y, ast.comprehension) and isinstance(y.iter, ast.Call) and src(y.iter.func) == "range" and y.iter.args and cnt in src(y.iter.args[-1]):
+                    return True
+                if isinstance(y, ast.BinOp) and isinstance(y.op, ast.Pow) and cnt in src(y.right):
+                    return True
+                if isinstance(y, ast.Call) and src(y.func).split(".")[-1] in ("comb", "binom", "pmf"):
+                    return True
+            return False
+        verdict = all(per_photon(x) for x in reads)
+        res.add(verdict, "I-source-per-photon", "_build_statistics_basic", bb.site(l), bb.qualname, "the emitted / lost alternative is applied once per photon of a mode (independent emissions)",
+                f"brightness is applied once per occupied mode, not once per photon: the {cnt} photons of a mode are emitted or lost together, so partial emission (e.g. one of two photons) gets probability zero", construct=src(l)[:160])
+    if verdict is None:
+        res.frozen(False, "I-source-per-photon", "_build_statistics_basic", bb.site(), bb.qualname, "", "loop over the modes of the target state applying the brightness not recognised", construct="")
     bs = S.methods["_build_statistics"]
     tb = src(bs.node).replace(" ", "")
     rg_mass.renormalise_kept(ctx, res, bs, "G-threshold-renormalises", "_build_statistics", "kept weights are divided by the kept total", "threshold path does not renormalise over exactly the kept inputs")
